@@ -42,10 +42,21 @@ var c04cols = []string{"a", "b", "c", "d"}
 // c04snapshot is everything C04 says must survive a clean close
 func c04snapshot(db *db19.Database) (schema, views, data, info string) {
 	rt := db.NewReadTran()
-	var ss, dd, ii []string
+	var ss, dd, ii, ff []string
 	for _, ts := range rt.GetAllSchema() {
 		ss = append(ss, db.Schema(ts.Table))
 		for i := range ts.Indexes {
+			// the links in both directions, with index positions and modes
+			// (String2 prints the mode only from the referencing side)
+			ix := &ts.Indexes[i]
+			if ix.Fk.Table != "" {
+				ff = append(ff, fmt.Sprintf("%s[%d]->%s(%s)#%d/m%d", ts.Table, i, ix.Fk.Table,
+					strings.Join(ix.Fk.Columns, ","), ix.Fk.IIndex, ix.Fk.Mode))
+			}
+			for _, fk := range ix.FkToHere {
+				ff = append(ff, fmt.Sprintf("%s[%d]<-%s(%s)#%d/m%d", ts.Table, i, fk.Table,
+					strings.Join(fk.Columns, ","), fk.IIndex, fk.Mode))
+			}
 			it := index.NewOverIter(ts.Table, i)
 			var rows []string
 			for it.Next(rt); !it.Eof(); it.Next(rt) {
@@ -68,13 +79,14 @@ func c04snapshot(db *db19.Database) (schema, views, data, info string) {
 	sort.Strings(ss)
 	sort.Strings(dd)
 	sort.Strings(ii)
+	sort.Strings(ff)
 	vs := rt.GetAllViews()
 	var vv []string
 	for i := 0; i+1 < len(vs); i += 2 {
 		vv = append(vv, vs[i]+"="+vs[i+1])
 	}
 	sort.Strings(vv)
-	return strings.Join(ss, " | "), strings.Join(vv, " | "), strings.Join(dd, " | "), strings.Join(ii, " | ")
+	return strings.Join(ss, " | "), strings.Join(vv, " | "), strings.Join(dd, " | "), strings.Join(ii, " | ") + " ## fk: " + strings.Join(ff, " | ")
 }
 
 // c04quiesce waits until the background merger has applied every pending merge, so that an
@@ -123,6 +135,167 @@ func TestVerifC15Meta(t *testing.T) {
 	TestVerifC04Reopen(t)
 }
 
+
+// ---- corpus: deterministic scripted histories, one per class of defect / seeded change that
+// depends on a rare random history. Each script is run twice on fresh file databases: once
+// straight through, once with Persist/Close/Check/Open (the reopen oracle above) after every
+// command. The oracle is generic: "a clean close and reopen is transparent" — every command must
+// have the same outcome (ok / error class) and the final visible state must be identical.
+// Commands: plain text = admin request, "!" = action (own transaction), "persist".
+
+var c04corpus = map[string][]string{
+	"fk-modes-after-reopen": { // cascade / cascade update / block behave the same in a new session
+		"create hdr (a,b) key(a)",
+		"create lin1 (k,a) key(k) index(a) in hdr cascade",
+		"create lin2 (k,a) key(k) index(a) in hdr cascade update",
+		"create lin3 (k,a) key(k) index(a) in hdr",
+		"!insert { a: 1 } into hdr", "!insert { a: 2 } into hdr", "!insert { a: 3 } into hdr", "!insert { a: 4 } into hdr",
+		"!insert { k: 1, a: 1 } into lin1", "!insert { k: 2, a: 2 } into lin1",
+		"!insert { k: 1, a: 2 } into lin2", "!insert { k: 2, a: 4 } into lin2",
+		"!insert { k: 1, a: 3 } into lin3",
+		"!delete hdr where a = 1",            // cascades into lin1
+		"!delete hdr where a = 3",            // blocked by lin3
+		"!update hdr where a = 4 set a = 40", // cascade update into lin2
+		"!delete hdr where a = 2",            // blocked by lin2 (cascade update only)
+		"!delete lin3 where k = 1",
+		"!delete hdr where a = 3",
+	},
+	"self-and-composite-fk": {
+		"create tree (id,parent,x) key(id) index(parent) in tree(id) cascade",
+		"create hdr (b,a) key(b,a)",
+		"create lin (k,e,c) key(k) index(e,c) in hdr(b,a) cascade",
+		"!insert { id: 1 } into tree", "!insert { id: 2, parent: 1 } into tree", "!insert { id: 3, parent: 2 } into tree",
+		"!insert { b: 1, a: 1 } into hdr", "!insert { b: 2 } into hdr",
+		"!insert { k: 1, e: 1, c: 1 } into lin", "!insert { k: 2, e: 2 } into lin", "!insert { k: 3 } into lin",
+		"!delete tree where id = 1",
+		"!delete hdr where b = 2",
+		"!delete hdr where b = 1",
+	},
+	"drop-last-table-and-view": { // finding 21
+		"create t (a,b) key(a)", "persist", "drop t", "persist",
+		"view v = t", "persist", "drop v", "persist",
+		"create t (a,c) key(a)", "!insert { a: 1, c: 2 } into t",
+	},
+	"skewed-clocks-drop": { // finding 12, seeded C15-2
+		"view v1 = t", "persist", "view v2 = t", "persist",
+		"create t (a,b) key(a)", "!insert { a: 1 } into t", "persist",
+		"create u (a,b) key(a)", "!insert { a: 1 } into u", "persist",
+		"!insert { a: 2 } into u", "persist", "!insert { a: 3 } into u", "persist", "!insert { a: 4 } into u", "persist",
+		"create w (a) key(a)", "persist", "drop t", "!insert { a: 5 } into u", "persist", "drop w", "persist",
+	},
+	"rename-over-dropped-name": { // finding 45
+		"create aa (k,old) key(k)", "persist", "create cc (k) key(k)", "persist",
+		"drop aa", "create bb (k,new) key(k)", "rename bb to aa", "drop aa", "persist",
+		"create aa (k,z) key(k)", "rename aa to dd", "rename dd to aa", "drop aa", "persist",
+	},
+	"drop-in-new-session": { // seeded C15-3: runs with a reopen before every command
+		"create t (a,b) key(a)", "create u (a,b) key(a)", "!insert { a: 1 } into u", "persist",
+		"drop t", "persist", "drop u", "persist", "create t (a) key(a)",
+	},
+	"alter-with-data": {
+		"create t (a,b,c) key(a) index(b)", "!insert { a: 1, b: 2, c: 3 } into t", "!insert { a: 2, b: 2 } into t",
+		"alter t create index(c)", "alter t rename b to bx", "alter t drop index(c)", "ensure t (a,bx,c,d) key(a) index(c,d)",
+		"rename t to t2", "alter t2 create (e)", "!insert { a: 3, e: 5 } into t2", "alter t2 drop (c)",
+	},
+}
+
+func c04errClass(msg string) string {
+	switch {
+	case msg == "":
+		return "ok"
+	case strings.Contains(msg, "blocked by foreign key"):
+		return "!fk-blocked"
+	case strings.Contains(msg, "duplicate"):
+		return "!dup"
+	default:
+		return "!err"
+	}
+}
+
+// c04script runs one script; returns the outcomes, the final snapshot, and false if an F was emitted
+func c04script(tr *lib.Trace, name string, script []string, path string, reopenEvery bool) ([]string, string, bool) {
+	os.Remove(path)
+	defer os.Remove(path)
+	var db *db19.Database
+	var err error
+	c04opens++
+	if msg := lib.Catch(func() { db, err = db19.CreateDatabase(path) }); msg != "" || err != nil {
+		tr.Fail(c04prefix+"-create-fail", fmt.Sprint("CreateDatabase: ", msg, err))
+		return nil, "", false
+	}
+	db19.StartConcur(db, time.Hour)
+	defer func() { lib.Catch(func() { db.Close() }) }()
+	hist := []string{"corpus " + name}
+	fail := func(sig, what string) {
+		tr.Fail(strings.Replace(sig, "c04-", c04prefix+"-", 1), what+"; "+strings.Join(hist, "; "))
+	}
+	dropped := map[string]bool{}
+	var outcomes []string
+	for _, cmd := range script {
+		var msg string
+		switch {
+		case cmd == "persist":
+			msg = lib.Catch(func() { db.Persist() })
+		case strings.HasPrefix(cmd, "!"):
+			msg = lib.Catch(func() {
+				ut := db.NewUpdateTran()
+				defer ut.Abort()
+				DoAction(nil, ut, cmd[1:])
+				if s := ut.Complete(); s != "" {
+					panic(s)
+				}
+			})
+		default:
+			c04quiesce(db, tr)
+			msg = lib.Catch(func() { DoAdmin(db, cmd, nil) })
+			if msg == "" && strings.HasPrefix(cmd, "drop ") {
+				dropped[strings.Fields(cmd)[1]] = true
+			} else if msg == "" && (strings.HasPrefix(cmd, "create ") || strings.HasPrefix(cmd, "view ")) {
+				delete(dropped, strings.Fields(cmd)[1])
+			}
+		}
+		hist = append(hist, cmd+" => "+c04errClass(msg))
+		outcomes = append(outcomes, cmd+" => "+c04errClass(msg))
+		if reopenEvery {
+			if !c04reopen(tr, &db, path, &hist, fail, dropped) {
+				return outcomes, "", false
+			}
+		}
+	}
+	s1, v1, d1, i1 := c04snapshot(db)
+	return outcomes, s1 + " ## " + v1 + " ## " + d1 + " ## " + i1, true
+}
+
+func c04runCorpus(tr *lib.Trace, dir string) {
+	names := make([]string, 0, len(c04corpus))
+	for n := range c04corpus {
+		names = append(names, n)
+	}
+	sort.Strings(names)
+	for _, name := range names {
+		script := c04corpus[name]
+		o1, f1, ok1 := c04script(tr, name, script, filepath.Join(dir, "c04-corpus-a.db"), false)
+		o2, f2, ok2 := c04script(tr, name, script, filepath.Join(dir, "c04-corpus-b.db"), true)
+		tr.Count("corpus.script")
+		if !ok1 || !ok2 {
+			continue
+		}
+		for i := range o1 {
+			if o1[i] != o2[i] {
+				tr.Fail(c04prefix+"-reopen-behaviour", fmt.Sprintf(
+					"corpus %s: with a close/reopen before it the request behaves differently: one session: %s; reopened: %s; script: %s",
+					name, o1[i], o2[i], strings.Join(o2[:i+1], "; ")))
+				break
+			}
+		}
+		if f1 != f2 {
+			tr.Fail(c04prefix+"-reopen-behaviour", fmt.Sprintf(
+				"corpus %s: final state differs between one session {%s} and a session per request {%s}; script: %s",
+				name, f1, f2, strings.Join(o2, "; ")))
+		}
+	}
+}
+
 func TestVerifC04Reopen(t *testing.T) {
 	tr := lib.Open()
 	defer tr.Close()
@@ -134,6 +307,7 @@ func TestVerifC04Reopen(t *testing.T) {
 	}
 	db19.MakeSuTran = func(ut *db19.UpdateTran) *core.SuTran { return core.NewSuTran(nil, true) }
 	MakeSuTran = func(qt QueryTran) *core.SuTran { return core.NewSuTran(nil, true) }
+	c04runCorpus(tr, dir)
 	for h := 0; h < n; h++ {
 		if c04openBudget-c04opens < 200 {
 			tr.Count("stopped: mmap budget of the process reached")
@@ -501,11 +675,16 @@ func c04reopen(tr *lib.Trace, pdb **db19.Database, path string, hist *[]string,
 		return false
 	}
 	if i1 != i2 {
-		for _, x := range strings.Split(i2, " | ") {
-			if strings.HasPrefix(x, "info:") && !strings.Contains(" | "+i1+" | ", " | "+x+" | ") && dropped[x[5:]] {
+		for _, x := range strings.Split(strings.SplitN(i2, " ## fk: ", 2)[0], " | ") {
+			if strings.HasPrefix(x, "info:") && !strings.Contains(" | "+strings.SplitN(i1, " ## fk: ", 2)[0]+" | ", " | "+x+" | ") && dropped[x[5:]] {
 				fail("c04-f21-resurrected", fmt.Sprintf("info of dropped table %s exists again after reopen; before {%s} after {%s}", x[5:], i1, i2))
 				return false
 			}
+		}
+		if strings.SplitN(i1, " ## fk: ", 2)[0] == strings.SplitN(i2, " ## fk: ", 2)[0] {
+			fail("c04-reopen-fkeys", fmt.Sprintf("foreign key links (table[index] -> target / <- source, #position, /mode) before {%s} after {%s}",
+				strings.SplitN(i1, " ## fk: ", 2)[1], strings.SplitN(i2, " ## fk: ", 2)[1]))
+			return false
 		}
 		fail("c04-reopen-info", fmt.Sprintf("info before {%s} after {%s}", i1, i2))
 		return false
